@@ -38,12 +38,13 @@ def check(case, ctx):
     null = name.startswith("null_model")
     fails = []
     ctx.label("fn:" + name)
+    ctx.label("scale:" + str(case.get("scale", "unit")))
     W0 = W.copy()
     np.fill_diagonal(W0, 0)
     if null:
-        o = ctx.call(fn, W.copy(), bin_swaps=case["itr"], wei_freq=case["wei_freq"], seed=case["seed"], timeout=20)
+        o = ctx.call(fn, gen.layout(W.copy(), case.get("order")), bin_swaps=case["itr"], wei_freq=case["wei_freq"], seed=case["seed"], timeout=20)
     else:
-        o = ctx.call(fn, W.copy(), case["itr"], seed=case["seed"], timeout=20)
+        o = ctx.call(fn, gen.layout(W.copy(), case.get("order")), case["itr"], seed=case["seed"], timeout=20)
     if o.status == "timeout":
         return fails
     if o.status == "reject":
@@ -145,9 +146,24 @@ def cases(draw, name, nmax):
             W[i, i] = v / 8.0
     if draw(st.booleans()):
         W = gen.apply_perm(W, draw(gen.perm(n)))
-    case = {"fn": name, "W": W, "itr": draw(st.sampled_from([0, 1, 2, 5])), "seed": draw(gen.seeds())}
+    # weight scales: some connections may be very weak (2^-30 < 1e-8): still connections, exact in binary floating point
+    scale = draw(st.sampled_from(["unit", "tiny-some", "unit", "tiny-all", "large"]))
+    if scale == "tiny-all":
+        W = W * 2.0 ** -30
+    elif scale == "large":
+        W = W * 1024.0
+    elif scale == "tiny-some":
+        pr = [(i, j) for (i, j) in gen.pairs(n, not und) if W[i, j] != 0]
+        pick = draw(st.lists(st.booleans(), min_size=len(pr), max_size=len(pr)))
+        for (i, j), b in zip(pr, pick):
+            if b:
+                W[i, j] *= 2.0 ** -30
+                if und:
+                    W[j, i] = W[i, j]
+    case = {"fn": name, "W": W, "itr": draw(st.sampled_from([2, 1, 5, 0])), "seed": draw(gen.seeds()),
+            "order": draw(st.sampled_from(gen.ORDERS)), "scale": scale}
     if null:
-        case["wei_freq"] = draw(st.sampled_from([0, 0.1, 0.25, 0.5, 1]))
+        case["wei_freq"] = draw(st.sampled_from([0.5, 0, 1, 0.25, 0.1]))
     return case
 
 
